@@ -155,13 +155,14 @@ class Gen:
         r = self.rng
         self.emit(ind, "try:")
         self.body(ind + 1, safe, depth - 1, in_loop)
-        nh = r.choice([0, 1, 1, 2])
-        fin = r.random() < 0.5 or nh == 0
+        full = r.random() < 0.35          # try / except / else / finally all present
+        nh = r.choice([1, 2]) if full else r.choice([0, 1, 1, 2])
+        fin = full or r.random() < 0.5 or nh == 0
         for k in range(nh):
             self.emit(ind, r.choice(["except ValueError:", "except (KeyError, TypeError) as e:", "except Exception:"])
                       if k < nh - 1 or r.random() < 0.8 else "except:")
             self.body(ind + 1, safe, depth - 1, in_loop)
-        if nh and r.random() < 0.55:
+        if nh and (full or r.random() < 0.55):
             self.emit(ind, "else:")
             self.body(ind + 1, safe, depth - 1, in_loop)
         if fin:
@@ -183,8 +184,8 @@ class Gen:
         r = self.rng
         nm = self.name("f")
         self.decorators(ind, method)
-        if r.random() < 0.06:
-            self.emit(ind, f"def {nm}(a=None, b=None): return a")
+        if r.random() < 0.15:
+            self.emit(ind, f"def {nm}(a=None, b=None): return {r.choice(['a', 'a if b else 3', '(lambda q: q)(a)', 'not b'])}")
             return
         pre = "async " if r.random() < 0.05 else ""
         self.emit(ind, f"{pre}def {nm}(a=None, b=None):")
@@ -195,6 +196,9 @@ class Gen:
         nm = self.name("C")
         if r.random() < 0.2:
             self.emit(ind, "@functools.total_ordering" if r.random() < 0.5 else "@staticmethod")
+        if r.random() < 0.08:
+            self.emit(ind, f"class {nm}: L = 1")
+            return
         self.emit(ind, f"class {nm}:")
         k = r.choice([1, 2, 3])
         for _ in range(k):
@@ -208,6 +212,9 @@ class Gen:
                 self.classdef(ind + 1, depth - 1)
             else:
                 self.funcdef(ind + 1, depth, method=True)
+        if r.random() < 0.3:
+            # a one-line method that closes the class body
+            self.emit(ind + 1, f"def {self.name('f')}(a=None, b=None): return {r.choice(['a', 'not a', 'a or b'])}")
 
     def module(self):
         r = self.rng
@@ -235,7 +242,11 @@ class Gen:
                 self.classdef(0, r.choice([1, 2]))
             else:
                 self.stmt(0, True, 2)
-        if r.random() < 0.5:
+        c = r.random()
+        if c < 0.3:
+            # a one-line definition that closes the module
+            self.emit(0, f"def {self.name('f')}(a=None, b=None): return {r.choice(['a', 'a + 1', 'a if b else 2'])}")
+        elif c < 0.65:
             q = r.choice(['"__main__"', "'__main__'"])
             self.emit(0, f"if __name__ == {q}:")
             self.emit(1, "K = 4")
@@ -266,6 +277,40 @@ def scope_names(tree):
     return {k: v for k, v in res.items() if "<anon>" not in k}
 
 
+def arm_targets(lines):
+    """0-based indices of lines where a marker exercises the arm logic of compound statements with
+    several arms: the else/finally labels and lines inside the else / handler / finally bodies of
+    try statements (weighted towards try/except/else/finally), else labels and bodies of
+    if/for/while, case lines."""
+    try:
+        tree = ast.parse("\n".join(lines) + "\n")
+    except SyntaxError:
+        return []
+    out = []
+
+    def label_before(stmts):
+        i = stmts[0].lineno - 2
+        return [i] if i >= 0 and lines[i].strip() in ("else:", "finally:") else []
+
+    def inside(stmts):
+        return [st.lineno - 1 for st in stmts]
+
+    for n in ast.walk(tree):
+        if isinstance(n, ast.Try):
+            w = 3 if (n.handlers and n.orelse and n.finalbody) else 1
+            for h in n.handlers:
+                out += [h.lineno - 1] + inside(h.body)
+            if n.orelse:
+                out += (label_before(n.orelse) + inside(n.orelse)) * w
+            if n.finalbody:
+                out += label_before(n.finalbody) + inside(n.finalbody)
+        elif isinstance(n, (ast.If, ast.For, ast.While)) and n.orelse:
+            out += label_before(n.orelse) + inside(n.orelse)[:1]
+        elif isinstance(n, ast.match_case):
+            out += [n.pattern.lineno - 1]
+    return out
+
+
 def gen_case(rng, size=None):
     """Returns dict(src, only, no, pynguin, pragma)."""
     size = size or rng.choice([6, 10, 16, 24])
@@ -276,10 +321,12 @@ def gen_case(rng, size=None):
         hdr = [i for i, ln in enumerate(lines) if ln.rstrip().endswith(":") or ln.lstrip().startswith(("def ", "class ", "if ", "case "))]
         labels = [i for i, ln in enumerate(lines) if ln.strip() in ("else:", "finally:", "try:") or ln.lstrip().startswith(("except", "elif "))]
         code = [i for i, ln in enumerate(lines) if ln.strip()]
+        targets = arm_targets(lines)
         k = rng.choice([0, 1, 1, 2, 3, 5])
         for _ in range(k):
             c = rng.random()
-            pool = labels if (labels and c < 0.3) else hdr if (hdr and c < 0.75) else code
+            pool = (targets if (targets and c < 0.4) else labels if (labels and c < 0.55)
+                    else hdr if (hdr and c < 0.8) else code)
             i = rng.choice(pool)
             if "#" not in lines[i]:
                 lines[i] = lines[i] + "  " + rng.choice(MARKERS)
@@ -289,15 +336,21 @@ def gen_case(rng, size=None):
             compile(src, "<gen>", "exec")
         except SyntaxError:
             continue
-        names = sorted(scope_names(tree))
+        all_names = scope_names(tree)
+        names = sorted(all_names)
         only, no = [], []
         c = rng.random()
+        oneliners = [q for q in names if all_names[q].lineno == (all_names[q].end_lineno or all_names[q].lineno)]
+        if oneliners and rng.random() < 0.4:
+            # one-line definitions named in the lists (scope boundary lines)
+            (only if rng.random() < 0.65 else no).append(rng.choice(oneliners))
+            names = [n for n in names if n not in only and n not in no]
         if names and c < 0.45:
-            no = rng.sample(names, min(len(names), rng.choice([1, 1, 2])))
+            no += rng.sample(names, min(len(names), rng.choice([1, 1, 2])))
         if names and 0.3 < c < 0.75:
             cand = [n for n in names if n not in no]
             if cand:
-                only = rng.sample(cand, min(len(cand), rng.choice([1, 1, 2])))
+                only += rng.sample(cand, min(len(cand), rng.choice([1, 1, 2])))
         if rng.random() < 0.05:
             no.append("does_not_exist")
         return {"src": src, "only": only, "no": no,
